@@ -309,6 +309,8 @@ func c18xRunInner(co *caseOut, kind string, in c18xInput) {
 		c18IntEnc(co, in)
 	case "compconst":
 		c18CompConst(co, in)
+	case "conc":
+		c18Conc(co, in)
 	default:
 		panic("unknown kind " + kind)
 	}
@@ -819,6 +821,8 @@ func c18xGenerate(co *caseOut, r *rng, cf *commonFlags) {
 	}
 	// text beyond ASCII: NEP-2 passphrases, NEP-2 envelopes, look-alikes of valid strings into every decoder
 	c18Nep2Generate(co, r, cf)
+	// the pure functions of the property (and the hot paths of C17) from 8 goroutines at once
+	c18ConcGenerate(co, cf)
 }
 
 // ---- public keys of both curves: decoding is per requested curve and must not depend on what was decoded before ----
